@@ -892,7 +892,7 @@ func (d *Driver) Replay(f *Finding, dir string) (string, string) {
 	}
 	output := string(out)
 	os.WriteFile(filepath.Join(dir, "replay.out"), out, 0o644)
-	gotPanic := strings.Contains(output, "VERIF-PANIC")
+	gotPanic := strings.Contains(output, "VERIF-PANIC") || strings.Contains(output, "fatal error: stack overflow")
 	gotResult, gotArgs := "", ""
 	for _, line := range strings.Split(output, "\n") {
 		if strings.HasPrefix(line, "VERIF-RESULT") {
